@@ -473,11 +473,18 @@ var o3Except = map[string]string{
 
 // O123 reports retention (O2), mutation (O3) and recycling (O1) of caller-owned metadata
 // slices by exported functions.
-func O123(rc *RC) *oAnalysis {
+func O123(rc *RC) *oAnalysis { return O123f(rc, nil) }
+
+// O123f restricts the report to the exported functions selected by only.
+func O123f(rc *RC, only func(fnKey string) bool) *oAnalysis {
 	a := NewOAnalysis(rc.P)
-	rc.S.Declare("O2", "no exported function stores a caller's []int/Shape/[]Slice/[]bool argument (or a sub-slice) into an object that outlives the call (documented sharing is an explicit exception table)", 80)
-	rc.S.Declare("O3", "no exported function writes through, sorts or copies into a caller's metadata slice argument", 80)
-	rc.S.Declare("O1", "no exported function hands a caller's metadata slice argument to the ints/bools pool", 80)
+	floor := 80
+	if only != nil {
+		floor = 1
+	}
+	rc.S.Declare("O2", "no exported function stores a caller's []int/Shape/[]Slice/[]bool argument (or a sub-slice) into an object that outlives the call (documented sharing is an explicit exception table)", floor)
+	rc.S.Declare("O3", "no exported function writes through, sorts or copies into a caller's metadata slice argument", floor)
+	rc.S.Declare("O1", "no exported function hands a caller's metadata slice argument to the ints/bools pool", floor)
 	type item struct {
 		rule string
 		m    map[*ssa.Function]map[int]string
@@ -494,6 +501,9 @@ func O123(rc *RC) *oAnalysis {
 	sort.Slice(fns, func(i, j int) bool { return oFnKey(fns[i]) < oFnKey(fns[j]) })
 	for _, fn := range fns {
 		if strings.HasPrefix(a.p.FileOf(fn.Pos()), "sparse") {
+			continue
+		}
+		if only != nil && !only(oFnKey(fn)) {
 			continue
 		}
 		for pi, p := range fn.Params {
